@@ -130,12 +130,12 @@ fn run_doc(rep: &Reporter, lang: &str, doc: &RuleDoc, trees: &[(String, AstGrep<
       if imp.is_some() != rf.is_some() {
         rep.violation(
           &format!("verdict:{}:{class}", if imp.is_some() { "impl-only" } else { "ref-only" }),
-          json!({"lang": lang, "doc": doc.core_json(), "src": src, "node": {"kind": n.kind(), "range": [n.range().start, n.range().end]}, "impl_bindings": imp, "ref_bindings": rf}),
+          json!({"lang": lang, "doc": doc.core_json(), "globals": doc.globals_json(), "src": src, "node": {"kind": n.kind(), "range": [n.range().start, n.range().end]}, "impl_bindings": imp, "ref_bindings": rf}),
         );
       } else if imp != rf {
         rep.violation(
           &format!("bindings:{class}"),
-          json!({"lang": lang, "doc": doc.core_json(), "src": src, "node": {"kind": n.kind(), "range": [n.range().start, n.range().end]}, "impl_bindings": imp, "ref_bindings": rf}),
+          json!({"lang": lang, "doc": doc.core_json(), "globals": doc.globals_json(), "src": src, "node": {"kind": n.kind(), "range": [n.range().start, n.range().end]}, "impl_bindings": imp, "ref_bindings": rf}),
         );
       }
     }
@@ -194,7 +194,7 @@ fn main() {
   let st = Stats::default();
   let samples = Samples::new(8);
   let mut per_lang = vec![];
-  let plans: Vec<&LangPlan> = if args.thorough() { PLANS.iter().collect() } else { PLANS.iter().take(2).collect() };
+  let plans: Vec<&LangPlan> = if args.thorough() { PLANS.iter().collect() } else { PLANS.iter().take(1).collect() };
   for p in plans {
     let spec = spec_by_name(p.lang).unwrap();
     let k = if args.thorough() { 4 } else { 3 };
@@ -202,6 +202,9 @@ fn main() {
     let trees: Vec<(String, AstGrep<D>)> = srcs.iter().map(|s| (s.clone(), spec.lang.ast_grep(s))).collect();
     let mut atoms: Vec<R> = p.atoms.iter().map(|a| R::Pat(a.to_string())).collect();
     atoms.extend(p.kinds.iter().map(|k| R::Kind(k.to_string())));
+    // nthChild whose ofRule binds variables while it filters the siblings
+    atoms.push(R::Nth { pos: "1".into(), reverse: false, of: Some(Box::new(R::Pat(p.atoms[1].to_string()))) });
+    atoms.push(R::Nth { pos: "2".into(), reverse: false, of: Some(Box::new(R::Pat(p.atoms[0].to_string()))) });
     let aux: Vec<R> = vec![R::Pat(p.atoms[1].to_string()), R::Pat(p.atoms[0].to_string()), R::Kind(p.kinds[0].to_string())];
     let d1 = apply_ops(&atoms, &aux, &[], false);
     let aux2: Vec<R> = vec![R::Pat(p.atoms[1].to_string()), R::Kind(p.kinds[0].to_string())];
@@ -226,6 +229,36 @@ fn main() {
         let mut d = RuleDoc::simple(R::Any(vec![R::All(vec![R::Matches("u".into()), R::Kind(p.kinds[1].to_string())]), caller.clone()]));
         d.utils.insert("u".into(), body.clone());
         docs.push((format!("any(all(matches:{},kind),pattern)", top_op(body)), d));
+      }
+    }
+    // global utilities with constraints of their own: `matches: g` must leave no trace when
+    // g's rule matches but g's constraint fails
+    let gcons: Vec<(&str, R)> = vec![("A", R::Pat("a".into())), ("A", R::Regex("^b$".into())), ("B", R::Pat("b".into())), ("A", R::Not(Box::new(R::Pat("a".into()))))];
+    for gbody in [p.atoms[1], p.atoms[4], p.atoms[3], p.atoms[0]] {
+      for (cv, cr) in &gcons {
+        let mut cons = BTreeMap::new();
+        cons.insert(cv.to_string(), cr.clone());
+        let g = (R::Pat(gbody.to_string()), cons);
+        let m = R::Matches("g".into());
+        let callers: Vec<R> = vec![
+          m.clone(),
+          R::Any(vec![m.clone(), R::Pat(p.atoms[1].to_string())]),
+          R::Any(vec![R::Pat(p.atoms[1].to_string()), m.clone()]),
+          R::Any(vec![m.clone(), R::Pat(p.atoms[4].to_string())]),
+          R::All(vec![R::Pat(p.atoms[4].to_string()), m.clone()]),
+          R::All(vec![R::Kind(p.kinds[0].to_string()), R::Not(Box::new(m.clone()))]),
+          R::Has(Box::new(Rel { rule: m.clone(), stop: Stop::End, field: None })),
+          R::Has(Box::new(Rel { rule: m.clone(), stop: Stop::Neighbor, field: None })),
+          R::Inside(Box::new(Rel { rule: m.clone(), stop: Stop::End, field: None })),
+          R::Precedes(Box::new(Rel { rule: m.clone(), stop: Stop::End, field: None })),
+          R::Follows(Box::new(Rel { rule: m.clone(), stop: Stop::End, field: None })),
+          R::Obj(vec![R::Kind(p.kinds[0].to_string()), R::Has(Box::new(Rel { rule: R::All(vec![m.clone(), R::Kind(p.kinds[0].to_string())]), stop: Stop::End, field: None }))]),
+        ];
+        for c in callers {
+          let mut d = RuleDoc::simple(c.clone());
+          d.globals.insert("g".into(), g.clone());
+          docs.push((format!("global-util-with-constraint:{}", top_op(&c)), d));
+        }
       }
     }
     // constraints
